@@ -293,6 +293,7 @@ def c05(ctx):
     gen_text(ctx, "coarse", 3 if quick else 4, 1, cats=PANIC_CATS, contract=False)
     gen_text(ctx, "fine", 2, 1, cats=PANIC_CATS, contract=False)
     gen_text(ctx, "ident", 0, 1, cats=PANIC_CATS, contract=False)
+    gen_parse(ctx, "strings", "C01", 3, (1, 1), cats=PANIC_CATS)
     gen_parse(ctx, "strings", "C01", 4, (16, 1) if quick else (1, 1), cats=PANIC_CATS)
     gen_parse(ctx, "mutants", "C02", 0, (300, 1) if quick else (13, 1), cats=PANIC_CATS)
     eval_family(ctx, "C10", {Q: (3, 1), T: (1, 1)}, cats=PANIC_CATS, mc=False)
